@@ -77,7 +77,11 @@ PROPS = {
     },
     "C05": {
         "level": "exploration",
-        "explanation": "bounded contract on the real collection protocol: for catalogue and rewrite-target programs, x.compute(), "
+        "frame": ["inplace"],
+        "explanation": "frame (L3, all inputs): the expression of a collection is replaced only through _replace_expr, which drops every "
+                       "cached derivation unconditionally, so the method entry points (which read the cached materialization) and the dask.* "
+                       "entry points (which read the expression) cannot see different programs after an in-place update. Values: "
+                       "bounded contract on the real collection protocol: for catalogue and rewrite-target programs, x.compute(), "
                        "dask.compute with other collections, x.persist(), dask.persist, dask.optimize, x.optimize() and x.to_delayed() "
                        "yield the same values, the persisted / dask-optimised collections keep name, chunks and dtype, and five follow-on "
                        "operations on each returned collection compute what they compute on x. Nothing is proved: the entry points go "
